@@ -14,15 +14,15 @@ EXTENDS Integers, Sequences, FiniteSets, TLC
 
 CONSTANTS Actors, Parent, Roots, KidsOf, MaxRestarts,
           NMsg, SendTo, Toks, TokTarget, TokGraceful,
-          Faults, IFaults, CrashKinds, Batch, Eager,
+          Faults, IFaults, CrashKinds, Batch, Eager, MaxDup,
           FixD1, FixD2, FixD4, FixD5, FixD12, FixD13, FixD14
 
 VARIABLES reg, inc, restarts, status, ring, mbuf, closed, children, ex, tok,
-          faults, ifaults, nextMsg, spawned, spret, dead, overlap,
+          faults, ifaults, nextMsg, spawned, spret, dead, overlap, dups,
           log, events, accepted, sentBefore, acted, done, issued
 
 vars == <<reg, inc, restarts, status, ring, mbuf, closed, children, ex, tok,
-          faults, ifaults, nextMsg, spawned, spret, dead, overlap,
+          faults, ifaults, nextMsg, spawned, spret, dead, overlap, dups,
           log, events, accepted, sentBefore, acted, done, issued>>
 
 P == INSTANCE ActorProps
@@ -48,7 +48,7 @@ Init ==
   /\ status = [a \in Actors |-> "stopped"] /\ ring = [a \in Actors |-> <<>>] /\ mbuf = [a \in Actors |-> <<>>]
   /\ closed = [a \in Actors |-> FALSE] /\ children = [a \in Actors |-> {}]
   /\ ex = [a \in Actors |-> NoEx] /\ tok = [t \in AllToks |-> "unused"]
-  /\ faults = Faults /\ ifaults = IFaults /\ nextMsg = 1 /\ spawned = {} /\ spret = {} /\ dead = FALSE /\ overlap = FALSE
+  /\ faults = Faults /\ ifaults = IFaults /\ nextMsg = 1 /\ spawned = {} /\ spret = {} /\ dead = FALSE /\ overlap = FALSE /\ dups = 0
   /\ log = <<>> /\ events = <<>> /\ accepted = [a \in Actors |-> {}]
   /\ sentBefore = [t \in Toks |-> {}] /\ acted = [a \in Actors |-> NoTok]
   /\ done = [t \in Toks |-> [at |-> -1, reg |-> FALSE, imm |-> FALSE]] /\ issued = <<>>
@@ -103,15 +103,32 @@ Spawn(r) ==
   /\ spawned' = spawned \cup {r}
   /\ reg' = [reg EXCEPT ![r] = TRUE]
   /\ ex' = [ex EXCEPT ![r] = [NoEx EXCEPT !.pc = "prod", !.base = "spawn"]]
-  /\ UNCHANGED <<inc, restarts, status, ring, mbuf, closed, children, tok, faults, ifaults, nextMsg, spret, dead, overlap,
+  /\ UNCHANGED <<inc, restarts, status, ring, mbuf, closed, children, tok, faults, ifaults, nextMsg, spret, dead, overlap, dups,
                  log, events, accepted, sentBefore, acted, done, issued>>
+
+(* Engine.Spawn with an id that was spawned before: a duplicate while the actor is registered (Registry.add publishes
+   ActorDuplicateIdEvent and starts nothing); a fresh process once the old one has completely gone *)
+SpawnAgain(r) ==
+  /\ EnvOK /\ r \in Roots /\ r \in spawned /\ dups < MaxDup
+  /\ dups' = dups + 1
+  /\ IF reg[r]
+     THEN /\ events' = Append(events, Ev("DuplicateId", r, 0))
+          /\ UNCHANGED <<reg, ex, status, ring, mbuf, closed, restarts, children>>
+     ELSE /\ ex[r].pc = "none"
+          /\ reg' = [reg EXCEPT ![r] = TRUE]
+          /\ ex' = [ex EXCEPT ![r] = [NoEx EXCEPT !.pc = "prod", !.base = "spawn"]]
+          /\ status' = [status EXCEPT ![r] = "stopped"] /\ ring' = [ring EXCEPT ![r] = <<>>] /\ mbuf' = [mbuf EXCEPT ![r] = <<>>]
+          /\ closed' = [closed EXCEPT ![r] = FALSE] /\ restarts' = [restarts EXCEPT ![r] = 0]
+          /\ children' = [children EXCEPT ![r] = {}]
+          /\ UNCHANGED events
+  /\ UNCHANGED <<inc, tok, faults, ifaults, nextMsg, spawned, spret, dead, overlap, log, accepted, sentBefore, acted, done, issued>>
 
 Send(a) ==
   /\ EnvOK /\ a \in SendTo /\ a \in spawned /\ nextMsg <= NMsg
   /\ EnqEffect(a, User(nextMsg), ring, status, ex, events)
   /\ accepted' = IF reg[a] THEN [accepted EXCEPT ![a] = @ \cup {nextMsg}] ELSE accepted
   /\ nextMsg' = nextMsg + 1
-  /\ UNCHANGED <<reg, inc, restarts, mbuf, closed, children, tok, faults, ifaults, spawned, spret, dead, log, sentBefore, acted, done, issued>>
+  /\ UNCHANGED <<reg, inc, restarts, mbuf, closed, children, tok, faults, ifaults, spawned, spret, dead, dups, log, sentBefore, acted, done, issued>>
 
 StopReq(t) ==
   /\ EnvOK /\ t \in Toks /\ tok[t] = "unused"
@@ -121,20 +138,20 @@ StopReq(t) ==
      /\ tok' = [tok EXCEPT ![t] = IF reg[a] THEN "sent" ELSE "done"]
      /\ done' = IF reg[a] THEN done ELSE [done EXCEPT ![t] = [at |-> Len(log), reg |-> FALSE, imm |-> TRUE]]
      /\ issued' = Append(issued, t)
-  /\ UNCHANGED <<reg, inc, restarts, mbuf, closed, children, faults, ifaults, nextMsg, spawned, spret, dead, log, accepted, acted>>
+  /\ UNCHANGED <<reg, inc, restarts, mbuf, closed, children, faults, ifaults, nextMsg, spawned, spret, dead, dups, log, accepted, acted>>
 
 ---------------------------------------------------------------------------
 (* process.Start *)
 Alive == ~dead /\ ~overlap
 ExStep(a, e2) == Alive /\ ex' = [ex EXCEPT ![a] = e2]
-Frame == <<reg, inc, restarts, status, ring, mbuf, closed, children, tok, faults, ifaults, nextMsg, spawned, spret, dead, overlap,
+Frame == <<reg, inc, restarts, status, ring, mbuf, closed, children, tok, faults, ifaults, nextMsg, spawned, spret, dead, overlap, dups,
            log, events, accepted, sentBefore, acted, done, issued>>
 
 Prod(a) ==
   /\ ex[a].pc = "prod"
   /\ inc' = [inc EXCEPT ![a] = @ + 1]
   /\ ExStep(a, [ex[a] EXCEPT !.pc = "init"])
-  /\ UNCHANGED <<reg, restarts, status, ring, mbuf, closed, children, tok, faults, ifaults, nextMsg, spawned, spret, dead, overlap,
+  /\ UNCHANGED <<reg, restarts, status, ring, mbuf, closed, children, tok, faults, ifaults, nextMsg, spawned, spret, dead, overlap, dups,
                  log, events, accepted, sentBefore, acted, done, issued>>
 
 DoInit(a, c) ==
@@ -145,14 +162,14 @@ DoInit(a, c) ==
                         /\ ExStep(a, [ex[a] EXCEPT !.pc = "recover", !.from = "start", !.pv = c])
           ELSE /\ events' = Append(events, Ev("Initialized", a, 0))
                /\ ExStep(a, [ex[a] EXCEPT !.pc = "started"])
-  /\ UNCHANGED <<reg, inc, restarts, status, ring, mbuf, closed, children, tok, nextMsg, spawned, spret, dead, overlap,
+  /\ UNCHANGED <<reg, inc, restarts, status, ring, mbuf, closed, children, tok, nextMsg, spawned, spret, dead, overlap, dups,
                  accepted, sentBefore, acted, done, issued>>
 
 DoStarted(a, c) ==
   /\ GateOK /\ ex[a].pc = "started" /\ CanCrash("Started", c)
   /\ log' = Append(log, Entry(a, "Started", 0, TRUE))
   /\ ExStep(a, [ex[a] EXCEPT !.pc = "spawnkids", !.todo = KidsOf[a], !.crash = c])
-  /\ UNCHANGED <<reg, inc, restarts, status, ring, mbuf, closed, children, tok, faults, ifaults, nextMsg, spawned, spret, dead, overlap,
+  /\ UNCHANGED <<reg, inc, restarts, status, ring, mbuf, closed, children, tok, faults, ifaults, nextMsg, spawned, spret, dead, overlap, dups,
                  events, accepted, sentBefore, acted, done, issued>>
 
 (* Context.SpawnChild calls inside the Started handler, then the handler returns or panics *)
@@ -179,14 +196,14 @@ SpawnKids(a) ==
                                    ![c] = [NoEx EXCEPT !.pc = "prod", !.base = "spawn"]]
                /\ children' = IF FixD13 THEN [children EXCEPT ![a] = @ \cup {c}] ELSE children
                /\ UNCHANGED <<faults, ifaults, events>>
-  /\ UNCHANGED <<inc, restarts, status, ring, mbuf, closed, tok, nextMsg, spret, dead, overlap, log, accepted, sentBefore, acted, done, issued>>
+  /\ UNCHANGED <<inc, restarts, status, ring, mbuf, closed, tok, nextMsg, spret, dead, overlap, dups, log, accepted, sentBefore, acted, done, issued>>
 
 SpawnWait(a) ==
   /\ ex[a].pc = "spawnwait" /\ Head(ex[a].todo) \in spret
   /\ children' = IF FixD13 THEN children ELSE [children EXCEPT ![a] = @ \cup {Head(ex[a].todo)}]
   /\ spret' = spret \ {Head(ex[a].todo)}
   /\ ExStep(a, [ex[a] EXCEPT !.pc = "spawnkids", !.todo = Tail(@)])
-  /\ UNCHANGED <<reg, inc, restarts, status, ring, mbuf, closed, tok, faults, ifaults, nextMsg, spawned, dead, overlap,
+  /\ UNCHANGED <<reg, inc, restarts, status, ring, mbuf, closed, tok, faults, ifaults, nextMsg, spawned, dead, overlap, dups,
                  log, events, accepted, sentBefore, acted, done, issued>>
 
 AfterStarted(a) ==
@@ -215,7 +232,7 @@ DoDeliver(a, c) ==
   /\ Spend(c)
   /\ IF c # "none" THEN ExStep(a, [ex[a] EXCEPT !.pc = "recover", !.from = "invoke", !.pv = c])
                    ELSE ExStep(a, [ex[a] EXCEPT !.pc = "loop", !.i = @ + 1])
-  /\ UNCHANGED <<reg, inc, restarts, status, ring, mbuf, closed, children, tok, nextMsg, spawned, spret, dead, overlap,
+  /\ UNCHANGED <<reg, inc, restarts, status, ring, mbuf, closed, children, tok, nextMsg, spawned, spret, dead, overlap, dups,
                  events, accepted, sentBefore, acted, done, issued>>
 
 (* graceful drain: the messages behind the pill; further pills are suppressed *)
@@ -235,7 +252,7 @@ DrainDeliver(a, c) ==
      /\ Spend(c)
      /\ IF c # "none" THEN ExStep(a, [e EXCEPT !.pc = "recover", !.from = "drain", !.nproc = np, !.pv = c])
                       ELSE ExStep(a, [e EXCEPT !.j = @ + 1, !.nproc = np])
-  /\ UNCHANGED <<reg, inc, restarts, status, ring, mbuf, closed, children, tok, nextMsg, spawned, spret, dead, overlap,
+  /\ UNCHANGED <<reg, inc, restarts, status, ring, mbuf, closed, children, tok, nextMsg, spawned, spret, dead, overlap, dups,
                  events, accepted, sentBefore, acted, done, issued>>
 
 (* deferred recover() in Invoke / Start *)
@@ -254,14 +271,14 @@ RecoverStopped(a, c) ==
   /\ mbuf' = [mbuf EXCEPT ![a] = NewMbuf(a)]
   /\ IF c # "none" /\ ~FixD14 THEN dead' = TRUE /\ ExStep(a, NoEx)
                                ELSE UNCHANGED dead /\ ExStep(a, [ex[a] EXCEPT !.pc = "tryrestart", !.cancel = NoTok])
-  /\ UNCHANGED <<reg, inc, restarts, status, ring, closed, children, tok, nextMsg, spawned, spret, overlap,
+  /\ UNCHANGED <<reg, inc, restarts, status, ring, closed, children, tok, nextMsg, spawned, spret, overlap, dups,
                  events, accepted, sentBefore, acted, done, issued>>
 
 RecoverSilent(a) ==
   /\ ex[a].pc = "recover" /\ ~DeliversStopped(a)
   /\ mbuf' = [mbuf EXCEPT ![a] = NewMbuf(a)]
   /\ ExStep(a, [ex[a] EXCEPT !.pc = "tryrestart", !.cancel = NoTok])
-  /\ UNCHANGED <<reg, inc, restarts, status, ring, closed, children, tok, faults, ifaults, nextMsg, spawned, spret, dead, overlap,
+  /\ UNCHANGED <<reg, inc, restarts, status, ring, closed, children, tok, faults, ifaults, nextMsg, spawned, spret, dead, overlap, dups,
                  log, events, accepted, sentBefore, acted, done, issued>>
 
 TryRestart(a) ==
@@ -276,7 +293,7 @@ TryRestart(a) ==
      ELSE /\ restarts' = [restarts EXCEPT ![a] = @ + 1]
           /\ events' = Append(events, Ev("Restarted", a, restarts[a] + 1))
           /\ ExStep(a, [ex[a] EXCEPT !.pc = "prod", !.pv = "none"])
-  /\ UNCHANGED <<reg, inc, status, ring, mbuf, closed, children, tok, faults, ifaults, nextMsg, spawned, spret, dead, overlap,
+  /\ UNCHANGED <<reg, inc, status, ring, mbuf, closed, children, tok, faults, ifaults, nextMsg, spawned, spret, dead, overlap, dups,
                  log, accepted, sentBefore, acted, done, issued>>
 
 (* process.cleanup *)
@@ -284,7 +301,7 @@ ClLeave(a) ==
   /\ ex[a].pc = "cl_leave"
   /\ children' = IF Parent[a] # "none" THEN [children EXCEPT ![Parent[a]] = @ \ {a}] ELSE children
   /\ ExStep(a, [ex[a] EXCEPT !.pc = "cl_snap"])
-  /\ UNCHANGED <<reg, inc, restarts, status, ring, mbuf, closed, tok, faults, ifaults, nextMsg, spawned, spret, dead, overlap,
+  /\ UNCHANGED <<reg, inc, restarts, status, ring, mbuf, closed, tok, faults, ifaults, nextMsg, spawned, spret, dead, overlap, dups,
                  log, events, accepted, sentBefore, acted, done, issued>>
 
 ClSnap(a) ==
@@ -296,11 +313,11 @@ ClKids(a) ==
   /\ ex[a].pc = "cl_kids" /\ Alive
   /\ LET e == ex[a] IN
      IF e.snap = <<>>
-     THEN ExStep(a, [e EXCEPT !.pc = "cl_stop"]) /\ UNCHANGED <<ring, status, events, tok, overlap>>
+     THEN ExStep(a, [e EXCEPT !.pc = "cl_stop"]) /\ UNCHANGED <<ring, status, events, tok, overlap, dups>>
      ELSE LET c == Head(e.snap) IN
           /\ EnqEffect(c, Pill(PTok(c), TRUE), ring, status, [ex EXCEPT ![a] = [e EXCEPT !.pc = "cl_wait"]], events)
           /\ tok' = [tok EXCEPT ![PTok(c)] = IF reg[c] THEN "sent" ELSE "done"]
-  /\ UNCHANGED <<reg, inc, restarts, mbuf, closed, children, faults, ifaults, nextMsg, spawned, spret, dead,
+  /\ UNCHANGED <<reg, inc, restarts, mbuf, closed, children, faults, ifaults, nextMsg, spawned, spret, dead, dups,
                  log, accepted, sentBefore, acted, done, issued>>
 
 ClWait(a) ==
@@ -314,7 +331,7 @@ ClStop(a) ==
   /\ reg' = [reg EXCEPT ![a] = FALSE]
   /\ closed' = [closed EXCEPT ![a] = TRUE]
   /\ ExStep(a, [ex[a] EXCEPT !.pc = "cl_stopped"])
-  /\ UNCHANGED <<inc, restarts, ring, mbuf, children, tok, faults, ifaults, nextMsg, spawned, spret, dead, overlap,
+  /\ UNCHANGED <<inc, restarts, ring, mbuf, children, tok, faults, ifaults, nextMsg, spawned, spret, dead, overlap, dups,
                  log, events, accepted, sentBefore, acted, done, issued>>
 
 ClStopped(a, c) ==
@@ -323,7 +340,7 @@ ClStopped(a, c) ==
   /\ Spend(c)
   /\ IF c # "none" /\ ~FixD14 THEN dead' = TRUE /\ ExStep(a, NoEx)
                                ELSE UNCHANGED dead /\ ExStep(a, [ex[a] EXCEPT !.pc = "cl_done"])
-  /\ UNCHANGED <<reg, inc, restarts, status, ring, mbuf, closed, children, tok, nextMsg, spawned, spret, overlap,
+  /\ UNCHANGED <<reg, inc, restarts, status, ring, mbuf, closed, children, tok, nextMsg, spawned, spret, overlap, dups,
                  events, accepted, sentBefore, acted, done, issued>>
 
 ClDone(a) ==
@@ -339,14 +356,14 @@ ClDone(a) ==
              /\ IF e.replay THEN ExStep(a, [e EXCEPT !.pc = "afterreplay", !.cancel = NoTok]) /\ UNCHANGED spret
                 ELSE IF e.base = "run" THEN ExStep(a, [e EXCEPT !.pc = "runloop", !.cancel = NoTok]) /\ UNCHANGED spret
                 ELSE ExStep(a, NoEx) /\ spret' = spret \cup {a}
-  /\ UNCHANGED <<reg, inc, restarts, status, ring, mbuf, closed, children, faults, ifaults, nextMsg, spawned, overlap,
+  /\ UNCHANGED <<reg, inc, restarts, status, ring, mbuf, closed, children, faults, ifaults, nextMsg, spawned, overlap, dups,
                  log, accepted, sentBefore, issued>>
 
 AfterReplay(a) ==
   /\ ex[a].pc = "afterreplay"
   /\ mbuf' = [mbuf EXCEPT ![a] = <<>>]
   /\ ExStep(a, [ex[a] EXCEPT !.pc = "open", !.replay = FALSE])
-  /\ UNCHANGED <<reg, inc, restarts, status, ring, closed, children, tok, faults, ifaults, nextMsg, spawned, spret, dead, overlap,
+  /\ UNCHANGED <<reg, inc, restarts, status, ring, closed, children, tok, faults, ifaults, nextMsg, spawned, spret, dead, overlap, dups,
                  log, events, accepted, sentBefore, acted, done, issued>>
 
 (* inbox.Start(p): CAS stopped->starting, idle, schedule *)
@@ -359,10 +376,10 @@ Open(a) ==
                /\ ExStep(a, [ex[a] EXCEPT !.pc = "runloop"]) /\ UNCHANGED spret
           ELSE /\ status' = [status EXCEPT ![a] = "running"]
                /\ ExStep(a, RunEx) /\ spret' = spret \cup {a} /\ UNCHANGED overlap
-     ELSE /\ UNCHANGED <<status, overlap>>
+     ELSE /\ UNCHANGED <<status, overlap, dups>>
           /\ IF ex[a].base = "run" THEN ExStep(a, [ex[a] EXCEPT !.pc = "runloop"]) /\ UNCHANGED spret
              ELSE ExStep(a, NoEx) /\ spret' = spret \cup {a}
-  /\ UNCHANGED <<reg, inc, restarts, ring, mbuf, closed, children, tok, faults, ifaults, nextMsg, spawned, dead,
+  /\ UNCHANGED <<reg, inc, restarts, ring, mbuf, closed, children, tok, faults, ifaults, nextMsg, spawned, dead, dups,
                  log, events, accepted, sentBefore, acted, done, issued>>
 
 (* Inbox.run / process *)
@@ -374,10 +391,11 @@ RunLoop(a) ==
           /\ ExStep(a, [RunEx EXCEPT !.pc = "loop", !.batch = SubSeq(ring[a], 1, n), !.i = 1])
           /\ ring' = [ring EXCEPT ![a] = SubSeq(@, n + 1, Len(@))]
           /\ UNCHANGED status
-  /\ UNCHANGED <<reg, inc, restarts, mbuf, closed, children, tok, faults, ifaults, nextMsg, spawned, spret, dead, overlap,
+  /\ UNCHANGED <<reg, inc, restarts, mbuf, closed, children, tok, faults, ifaults, nextMsg, spawned, spret, dead, overlap, dups,
                  log, events, accepted, sentBefore, acted, done, issued>>
 
 Next == \/ \E r \in Roots : Spawn(r)
+        \/ \E r \in Roots : SpawnAgain(r)
         \/ \E a \in Actors : Send(a)
         \/ \E t \in Toks : StopReq(t)
         \/ \E a \in Actors : Prod(a)
@@ -421,8 +439,8 @@ C05_Numbered    == P!RestartsNumbered(events)
 C05_Complete    == Quiet => \A a \in Actors : (reg[a] /\ P!NotStopping(issued, events, a)) => \A k \in accepted[a] : P!Handled(log, a, k)
 C06_Alive       == ~dead
 C06_Bounded     == P!RestartsBounded(events) /\ \A a \in Actors : restarts[a] <= MaxRestarts[a]
-C06_Clean       == Quiet => P!CleanAfterExhaustion(events, issued, reg, FALSE)
-C06_CleanKF     == Quiet => P!CleanAfterExhaustion(events, issued, reg, TRUE)
+C06_Clean       == (Quiet /\ dups = 0) => P!CleanAfterExhaustion(events, issued, reg, FALSE)
+C06_CleanKF     == (Quiet /\ dups = 0) => P!CleanAfterExhaustion(events, issued, reg, TRUE)    \* (an id spawned again is registered again)
 C07_DoneAfterStop == P!DoneAfterStop(log, done, FALSE)
 C07_DoneAfterStopKF == P!DoneAfterStop(log, done, TRUE)
 C07_Drained     == P!Drained(log, events, done, issued, sentBefore)
@@ -438,4 +456,6 @@ C08_Children    == P!ChildrenExact(log, issued, events)
 C08_NotDoneEarly == P!NotDoneEarly(log, done, issued, events, FALSE)
 C08_NotDoneEarlyKF == P!NotDoneEarly(log, done, issued, events, TRUE)
 C13_Chain       == P!ChainAlways(log)
+C10_Resolvable  == P!LiveResolvable(log)
+C10_DupNoEffect == P!IncOrder(log) /\ P!AtMostOnce(log) /\ P!InOrder(log)
 =============================================================================
